@@ -202,8 +202,8 @@ func kinds(a, b depgen.Ins) string {
 
 func main() {
 	mon.Main(mon.Spec{
-		Prop: "C06",
-		Rule: "case = every adjacent pair of every block of generated synthetic codes (1..4 blocks x 1..12 instructions over 2-4 registers, 2 memory spaces, type flags, jumps to next, terminators), first on the fresh block, then again for every adjacent pair of the current order after each accepted move of a 12-step history of bounds queries and random move attempts; non-trivial = pair satisfying the independence predicate of the statement, distinct by the two instructions",
+		Prop:        "C06",
+		Rule:        "case = every adjacent pair of every block of generated synthetic codes (1..4 blocks x 1..12 instructions over 2-4 registers, 2 memory spaces, type flags, jumps to next, terminators), first on the fresh block, then again for every adjacent pair of the current order after each accepted move of a 12-step history of bounds queries and random move attempts; non-trivial = pair satisfying the independence predicate of the statement, distinct by the two instructions",
 		Explanation: "oracle: own read/write-set extraction over the effects and the statement's predicate verbatim (no shared register incl. IP, no memory space accessed by both with a write, no syscall/CPU-state change, no memory-ordering instruction paired with a memory access or another memory-ordering instruction, the later one not the block's terminating jump); every independent adjacent pair must be swappable in both directions. Pairs that share anything are not judged.",
 		Assumptions: []string{"blocks built through deps.NewCode from synthetic instructions"},
 		Cases: func(t string) int {
